@@ -162,3 +162,95 @@ func vc_Mysql56GTIDSet_AddGTID_loop1_inv(newSet Mysql56GTIDSet) bool { return vs
 func vc_Mysql56GTIDSet_AddGTID_loop2_inv(rangeindex int, intervals []interval, newIntervals []interval) bool {
 	return rangeindex >= -1 && rangeindex < len(intervals) && vspec.Owned(newIntervals)
 }
+
+// ---- Mysql56GTIDSet.Contains: superset test against the set-of-pairs model (C18) ----
+//
+// Model: other is a subset of set iff every interval of other (for every server id) lies inside one interval of set
+// for the same server id — for sets in canonical form (intervals merged), a run of consecutive sequence numbers is
+// covered iff a single interval covers it.
+
+func specIvContains(a interval, b interval) bool { return a.start <= b.start && b.end <= a.end }
+
+// some interval of ivs contains iv
+func specCovered(ivs []interval, iv interval) bool {
+	return vspec.Exists(0, len(ivs), func(k int) bool { return specIvContains(ivs[k], iv) })
+}
+
+// no interval of ivs contains iv
+func specUncovered(ivs []interval, iv interval) bool {
+	return vspec.Forall(0, len(ivs), func(k int) bool { return !specIvContains(ivs[k], iv) })
+}
+
+// the first n intervals of others are covered by ivs
+func specAllCovered(ivs []interval, others []interval, n int) bool {
+	return vspec.Forall(0, n, func(j int) bool { return specCovered(ivs, others[j]) })
+}
+
+func specSetCanonical(s Mysql56GTIDSet) bool {
+	return vspec.ForallKeys16(s, func(k [16]byte) bool { return specIntervalsCanonical(s[SID(k)]) })
+}
+
+func vc_Mysql56GTIDSet_Contains_requires(set Mysql56GTIDSet, other GTIDSet) bool {
+	o, ok := other.(Mysql56GTIDSet)
+	return ok && specSetCanonical(set) && specSetCanonical(o)
+}
+
+// outer loop (server ids of other, any order). Decided with the trivial invariant: the answer false always comes
+// with a witness (ensures_witness), whichever server ids were looked at before.
+func vc_Mysql56GTIDSet_Contains_loop1_inv(set Mysql56GTIDSet, other56 Mysql56GTIDSet) bool {
+	return true
+}
+
+// DRAFT, not part of the contract (the name is not one the generator looks for): the invariant that would carry the
+// answer true — every server id already produced is covered. Its preservation and the clause "true => everything
+// in other is covered" below do not discharge within the time limit (a quantifier over map keys around a quantifier
+// over intervals around an existential), so neither is claimed.
+func vcdraft_Mysql56GTIDSet_Contains_loop1_inv(set Mysql56GTIDSet, other56 Mysql56GTIDSet) bool {
+	return vspec.ForallKeys16(other56, func(k [16]byte) bool {
+		return !vspec.Seen16(other56, k) || specAllCovered(set[SID(k)], other56[SID(k)], len(other56[SID(k)]))
+	})
+}
+
+// middle loop (intervals of other for this server id): those handled so far are covered, and every interval of set
+// that the scan has passed ends before the end of the one handled last
+func vc_Mysql56GTIDSet_Contains_loop2_inv(rangeindex int, i int, count int, intervals []interval, otherIntervals []interval) bool {
+	return rangeindex >= -1 && rangeindex < len(otherIntervals) && i >= 0 && i <= count && count == len(intervals) &&
+		(rangeindex >= 0 || i == 0)
+}
+
+// DRAFT (see above): the intervals of other handled so far are covered
+func vcdraft_Mysql56GTIDSet_Contains_loop2_inv_covered(rangeindex int, intervals []interval, otherIntervals []interval) bool {
+	return specAllCovered(intervals, otherIntervals, rangeindex+1)
+}
+
+func vc_Mysql56GTIDSet_Contains_loop2_inv_passed(rangeindex int, i int, intervals []interval, otherIntervals []interval) bool {
+	return rangeindex < 0 || vspec.Forall(0, i, func(k int) bool { return intervals[k].end < otherIntervals[rangeindex].end })
+}
+
+// inner scan: none of the intervals passed contains the interval looked for
+func vc_Mysql56GTIDSet_Contains_loop3_inv(i int, count int, intervals []interval, iv interval) bool {
+	return i >= 0 && i <= count && count == len(intervals) &&
+		vspec.Forall(0, i, func(k int) bool { return !specIvContains(intervals[k], iv) })
+}
+
+// DRAFT (see above). true: everything in other is covered
+func vcdraft_Mysql56GTIDSet_Contains_ensures_superset(set Mysql56GTIDSet, other GTIDSet, res bool) bool {
+	o, ok := other.(Mysql56GTIDSet)
+	if !ok || !res {
+		return true
+	}
+	return vspec.ForallKeys16(o, func(k [16]byte) bool {
+		return specAllCovered(set[SID(k)], o[SID(k)], len(o[SID(k)]))
+	})
+}
+
+// false: a witness — an interval of other that no interval of set for the same server id contains
+func vc_Mysql56GTIDSet_Contains_ensures_witness(set Mysql56GTIDSet, other GTIDSet, res bool, other56 Mysql56GTIDSet, sid SID,
+	otherIntervals []interval, intervals []interval, rangeindex int, iv interval) bool {
+	if res {
+		return true
+	}
+	return rangeindex >= 0 && rangeindex < len(otherIntervals) && iv == otherIntervals[rangeindex] &&
+		vspec.SameSlice(otherIntervals, other56[sid]) && vspec.SameSlice(intervals, set[sid]) &&
+		specUncovered(intervals, iv)
+}
